@@ -4,8 +4,8 @@ cd /verif
 n=0
 for sid in "$@"; do
   prop=${sid%%-*}
-  ( SRC=/nonexistent VERIF_TIMEOUT=400 tools/seed_eval.sh $prop $sid > /tmp/rs-$sid.out 2>&1 ) &
-  n=$((n+1)); if [ $((n%5)) -eq 0 ]; then wait; fi
+  ( SRC=/nonexistent SKIP_DEMO=1 VERIF_TIMEOUT=400 tools/seed_eval.sh $prop $sid > /tmp/rs-$sid.out 2>&1 ) &
+  n=$((n+1)); if [ $((n%${PAR:-5})) -eq 0 ]; then wait; fi
 done
 wait
 for sid in "$@"; do v=$(grep -c VIOLATION /tmp/rs-$sid.out); e=$(grep 'check exit' /tmp/rs-$sid.out); echo "$sid violations=$v $e"; done
